@@ -49,6 +49,14 @@ func evoScenarios(sup *schema.Support) []evoScenario {
 	n := base("EvDepNew")
 	n.Fields = append(n.Fields, schema.Field{Name: "c", Index: 3, Type: schema.P("int32")})
 	out = append(out, evoScenario{"Dep", o, n})
+	// both versions carry a retired field with the LOWEST index (the usual shape once an old field has been deprecated)
+	depLow := func(name string, extra ...schema.Field) *schema.Record {
+		r := &schema.Record{Kind: schema.Message, Name: name, Support: true, Label: "message:evolved", Fields: []schema.Field{
+			{Name: "nick", Index: 1, Type: schema.P("string"), Deprecated: true}, {Name: "a", Index: 2, Type: schema.P("int32")}, {Name: "s", Index: 3, Type: schema.P("string")}}}
+		r.Fields = append(r.Fields, extra...)
+		return r
+	}
+	out = append(out, evoScenario{"DepLow", depLow("EvDepLowOld"), depLow("EvDepLowNew", schema.Field{Name: "email", Index: 4, Type: schema.P("string")})})
 	// the reader's version has no field that is ever written: empty, or every field deprecated
 	mk := func(name string, fields ...schema.Field) *schema.Record {
 		return &schema.Record{Kind: schema.Message, Name: name, Support: true, Label: "message:evolved", Fields: fields}
